@@ -131,6 +131,11 @@ func (fr *frame) get(key ssa.Value) value {
 		if r, ok := fr.i.globals[key]; ok {
 			return r
 		}
+		// globals are materialised lazily (zeroing every table of every
+		// dependency for every worker and path is far too expensive)
+		cell := zero(mustDeref(key.Type()))
+		fr.i.globals[key] = &cell
+		return &cell
 	}
 	if r, ok := fr.env[key]; ok {
 		return r
@@ -222,6 +227,15 @@ func visitInstr(fr *frame, instr ssa.Instruction) continuation {
 				if fr.i.ex.Branch(mkCmp("bvslt", ys.t, mkConst(0, bits))) {
 					panic(runtimePanic("negative shift amount"))
 				}
+			}
+		}
+		switch instr.Op {
+		case token.QUO, token.REM, token.SHL, token.SHR:
+			// a symbolic shift count or divisor that can take only one value
+			// on this path is replaced by that value: one query here saves
+			// non-linear terms in every later query
+			if ys, ok := y.(sym); ok && ys.t.size > 1 {
+				y = fr.i.ex.trySingleton(ys)
 			}
 		}
 		fr.env[instr] = binop(instr.Op, instr.X.Type(), x, y)
